@@ -51,6 +51,10 @@ def run(run, tier, seed, kinds=KINDS, pid=PID):
     res = explore.prod(lambda: iter([hist]), one, workers=1, bound={'chain': chain})
     res.samples = [hist[:6] + ['...'] + hist[-4:]]
     run.add_part('deep_chain', res)
+    if pid == 'C02':
+        # the same histories through the other front door: closures delivered to the real plugin on the GDB model
+        from . import c02gdb
+        c02gdb.parent_parts(run, tier, seed)
     run.rule = ('explicit-state BFS over well-formed histories on one connection (events: create by request/event/'
                 'bind, delete_id, use, mention, foreign delete_id; ids %s + server ids; merged on the reference object '
                 'table); a history is non-trivial when some id gets a second incarnation' % (list(hc.ot.CLIENT_IDS),))
@@ -65,6 +69,9 @@ def run(run, tier, seed, kinds=KINDS, pid=PID):
 def replay(case):
     sut.bind()
     sut.ensure_protocols()
+    if 'gdb_history' in case:
+        from . import c02gdb
+        return c02gdb.replay(case)
     if 'sink_history' in case:
         from . import c04
         return c04.run_sink(case['sink_history'])[0]
